@@ -233,9 +233,17 @@ def _check(ctx: Ctx) -> None:
                 if isinstance(recv, ast.Name) and recv.id == "self" and name in ("normalise", "quantise_and_normalise"):
                     guard = next((a for a in ancestors(n) if isinstance(a, ast.If)), None)
                     norm_calls.append((n, guard))
-        from ..astutil import extra_conditions
-        ok = bool(norm_calls) and all(g is not None and isinstance(g.test, ast.Name) and g.test.id == shifted_var and not extra_conditions(n_, g.test)
-                                      for n_, g in norm_calls)
+        from ..astutil import guarded_conditions
+
+        def exactly_under_flag(n_):
+            # the only condition on the way to the call is `the flag holds` (as the test of an if, or as a passed guard `if not flag: return`)
+            pcs = []
+            for t, h in guarded_conditions(n_):
+                while isinstance(t, ast.UnaryOp) and isinstance(t.op, ast.Not):
+                    t, h = t.operand, not h
+                pcs.append((t, h))
+            return len(pcs) == 1 and isinstance(pcs[0][0], ast.Name) and pcs[0][0].id == shifted_var and pcs[0][1]
+        ok = bool(norm_calls) and all(exactly_under_flag(n_) for n_, g in norm_calls)
         ctx.check(ok, "DELEG", "Sequence.transpose re-normalises iff notes were moved by octaves", function=st.qualname,
                   construct="re-normalisation after transposition is missing or not tied to the octave flag",
                   message="octave-wrapped notes can overlap existing ones; normalise() must run exactly then (and not otherwise, "
